@@ -125,6 +125,8 @@ SITES = {
     'restore_omen': ('lib_guesser/pcfg_grammar.py', 'PcfgGrammar.restore_omen'),
     'honey_run': ('lib_guesser/honeyword_session.py', 'HoneywordSession.run'),
     'prince_list': ('lib_princeling/wordlist_generation.py', 'create_prince_wordlist'),
+    'random_walk': ('lib_guesser/pcfg_grammar.py', 'PcfgGrammar.random_walk'),
+    'honey_guess': ('lib_guesser/pcfg_grammar.py', 'PcfgGrammar._honeyword_recursive_guess'),
     # OMEN generator
     'gs_next_guess': ('lib_guesser/omen/guess_structure.py', 'GuessStructure.next_guess'),
     'gs_fill': ('lib_guesser/omen/guess_structure.py', 'GuessStructure._fill_out_parse_tree'),
